@@ -499,6 +499,10 @@ impl ContinuityStore {
                 tail_bytes,
             ) {
                 Ok(Some(tail)) => {
+                    #[cfg(rip_verif)]
+                    rip_kernel::verif::point("compile.tail.scanned", || {
+                        serde_json::json!({"stream": continuity_id, "events": tail.events.len()})
+                    });
                     if !tail.events.is_empty() {
                         // Prefer the full continuity sidecar's head seq so `from_seq` matches the
                         // truth stream even when the mr sidecar omits non-message events.
